@@ -55,7 +55,7 @@ CLAIMED.update({
 CLAIMED.update({
     'C10': _p('other', T_DED + ' (A-STRUCT relative): format/range VCs of the data directives over unbounded values, emit-size VCs, read_lines include_bytes rewrite; bounded for codecs and files',
               'Proof: the struct code chosen for db/dh/dw/dd and bytes/shorts/ints/longs/longlongs is little-endian, of the documented width and accepts exactly -2**(8w-1) <= v < 2**(8w); refusals are AssemblerErrors; sizes equal emitted lengths; include_bytes carries the looked-up path. Bounded: strings over code points / escapes, include_bytes trees with decoys.',
-              'A-STRUCT, codecs and the filesystem are external; sequence lengths unrolled 0..3.', 'DESIGN 4 C10'),
+              'A-STRUCT (struct.pack and int.to_bytes of 1/2/4/8 bytes), codecs and the filesystem are external; sequence lengths unrolled 0..3; a value that bypasses both encoders leaves the path undecided.', 'DESIGN 4 C10'),
     'C11': _p('other', T_DED + ' for resolve_constants / resolve_register_aliases / constructed operand expressions / register-alias lemma (exhaustive); bounded for the meaning of expression texts (Python eval)',
               'Proof of the sequential constant environment, alias replacement, operand-type obligations, alias lemma over all 97 register spellings; bounded expression trees and substitution in every operand position, both modes. Five recorded KNOWN-FINDINGs (character literals broken by the lexer / inside expressions).',
               'A-EVAL: expression arithmetic is Python eval; see KNOWN_FINDINGS.txt.', 'DESIGN 4 C11'),
